@@ -297,15 +297,22 @@ def very_deep_case(d, kind="template"):
     return None
 
 
-NEST_KINDS = ("name", "arg-known", "arg-unknown", "link", "default", "mixed")
+NEST_KINDS = ("name", "arg-known", "arg-unknown", "link", "default",
+              "pfn-first", "pfn-branch", "pfn-name", "mixed")
 NEST_MODES = ("all", "pre_expand", "only", "except", "no-parserfns")
 
 
 def nest_text(d, kind):
     text = "core"
     for i in range(d):
-        k = kind if kind != "mixed" else NEST_KINDS[i % 5]
-        if k == "name":
+        k = kind if kind != "mixed" else NEST_KINDS[i % (len(NEST_KINDS) - 1)]
+        if k == "pfn-first":
+            text = "{{#if:" + text + "|y|n}}"
+        elif k == "pfn-branch":
+            text = "{{#ifeq:a|a|" + text + "|n}}"
+        elif k == "pfn-name":
+            text = "{{uc:" + text + "}}"
+        elif k == "name":
             text = "{{ " + text + " }}"
         elif k == "arg-known":
             text = "{{tb|" + text + "}}"
